@@ -17,6 +17,9 @@ raises Untranslatable(file:line).  Translated:
  D lcapy/oneport.py  Vac / Iac `__init__` (`phasor(amp * exp(j * phi), omega=omega)`,
    argument positions and defaults) and their `voc` / `isc` properties
    (`amp * cos(omega * t + phi)`)                                   -> src_phasor, src_time_form
+ F lcapy/expr.py     Expr.magnitude (sqrt(N.real**2 + N.imag**2) / D), Expr.phase (atan2(N.imag, N.real); 0 / pi for
+   real numbers), Expr.dB (20 or 10 log10 magnitude), abs / angle aliases          -> gen_mag_num_sq, gen_phase_*, gen_dB_*
+   lcapy/acdc.py     ACChecker._is_sum_ac (x, y formulas and the three branches)              -> gen_sum_*
  E lcapy/phasor.py   PhasorDomainExpression.time (real branch), .from_time
    (`check.amp * exp(j * check.phase)`), lcapy/acdc.py ACChecker._find_freq_phase
    (phase offsets of cos / sin, `phase += coeffs[1]`, `omega = coeffs[0]`)   -> gen_phasor_time, gen_offs
@@ -615,6 +618,69 @@ class Translator:
                 self.ad.fail(fn, 'statement `%s` not found' % need)
         return out
 
+    # ---- F: Expr.magnitude / phase / dB (frequency-response read-out) ----------------------
+    def fresp(self):
+        cls = self.ex.cls('Expr')
+        mg = self.ex.func(cls, 'magnitude')
+        text = [ast.unparse(n) for n in strip_doc(mg.body)]
+        for need in ('R = self.rationalize_denominator()', 'N = R.N', 'Dnew = R.D', 'dst = Nnew / Dnew'):
+            if need not in text:
+                self.ex.fail(mg, 'magnitude: statement `%s` not found' % need)
+        nn = [n for n in mg.body if isinstance(n, ast.Assign) and ast.unparse(n.targets[0]) == 'Nnew']
+        if len(nn) != 1:
+            self.ex.fail(mg, 'magnitude: Nnew not assigned exactly once')
+        v = nn[0].value
+        if not (isinstance(v, ast.Call) and getattr(v.func, 'id', None) == 'sqrt' and len(v.args) == 1
+                and isinstance(v.args[0], ast.Call) and isinstance(v.args[0].func, ast.Attribute) and v.args[0].func.attr == 'simplify'):
+            self.ex.fail(v, 'magnitude: expected sqrt((...).simplify())')
+        env = {'N.real': 'Nr', 'N.imag': 'Ni'}
+
+        def tr(e):
+            u = ast.unparse(e)
+            if u in env:
+                return env[u]
+            if isinstance(e, ast.BinOp):
+                if isinstance(e.op, ast.Pow) and isinstance(e.right, ast.Constant) and e.right.value == 2:
+                    x = tr(e.left)
+                    return '(fmul %s %s)' % (x, x)
+                op = {ast.Add: 'fadd', ast.Sub: 'fsub', ast.Mult: 'fmul'}.get(type(e.op))
+                if op:
+                    return '(%s %s %s)' % (op, tr(e.left), tr(e.right))
+            self.ex.fail(e, 'magnitude: unsupported term')
+        magsq = tr(v.args[0].func.value)
+        rb = [n for n in mg.body if isinstance(n, ast.If) and ast.unparse(n.test) == 'self.is_real']
+        if len(rb) != 1 or 'dst = expr(abs(self.sympy))' not in [ast.unparse(x) for x in rb[0].body]:
+            self.ex.fail(mg, 'magnitude: real branch is not abs(self.sympy)')
+        # phase
+        ph = self.ex.func(cls, 'phase')
+        calls = [ast.unparse(n) for n in ast.walk(ph) if isinstance(n, ast.Call) and getattr(n.func, 'id', None) == 'atan2']
+        if not calls or any(c != 'atan2(N.imag, N.real)' for c in calls):
+            self.ex.fail(ph, 'phase: expected atan2(N.imag, N.real) only, found %s' % calls)
+        ptext = ast.unparse(ph)
+        for need in ('R = self.rationalize_denominator()', 'N = R.N', 'G = gcd(N.real, N.imag)', 'N = N / G'):
+            if need not in ptext:
+                self.ex.fail(ph, 'phase: statement `%s` not found' % need)
+        sign = [n for n in ast.walk(ph) if isinstance(n, ast.If) and ast.unparse(n.test) == 'N.real >= 0']
+        if len(sign) != 1 or [ast.unparse(x) for x in sign[0].body] != ['dst = expr(0)'] or [ast.unparse(x) for x in sign[0].orelse] != ['dst = expr(sym.pi)']:
+            self.ex.fail(ph, 'phase: real-number branch is not 0 / pi')
+        # dB
+        db = self.ex.func(cls, 'dB')
+        ifs = [n for n in db.body if isinstance(n, ast.If) and ast.unparse(n.test) == 'self.is_power or self.is_squared']
+        if len(ifs) != 1:
+            self.ex.fail(db, 'dB: power test not found')
+        fac = {}
+        for nm, body in (('power', ifs[0].body), ('field', ifs[0].orelse)):
+            if len(body) != 1 or not isinstance(body[0], ast.Assign):
+                self.ex.fail(db, 'dB: unexpected branch')
+            e = body[0].value
+            if not (isinstance(e, ast.BinOp) and isinstance(e.op, ast.Mult) and isinstance(e.left, ast.Constant)
+                    and ast.unparse(e.right) == 'log10(self.magnitude)'):
+                self.ex.fail(e, 'dB: expected <k> * log10(self.magnitude)')
+            fac[nm] = int(e.left.value)
+        for nm, want in (('abs', 'self.magnitude'), ('angle', 'self.phase')):
+            self.ret_only(self.ex, self.ex.func(cls, nm), want)
+        return {'magsq': magsq, 'dB': fac, 'lines': (mg.lineno, ph.lineno, db.lineno)}
+
     # ---- all ----------------------------------------------------------------------------
     def translate(self):
         for n in LEAVES:
@@ -629,6 +695,7 @@ class Translator:
         self.ptime, l4 = self.phasor_time()
         self.offs, l5 = self.acchecker()
         self.sumac = self.sum_ac()
+        self.fr = self.fresp()
         self.lines = {'impedance': l1, 'admittance': l2, 'select': l3, 'time': l4, 'acchecker': l5}
         return self
 
@@ -672,6 +739,15 @@ class Translator:
         o.append('Inductive ampsel := AmpX | AmpY.')
         o.append('Definition gen_sum_y0 : ampsel * Z := (Amp%s, (%d)).' % (sa['y0'][0].upper(), sa['y0'][1]))
         o.append('Definition gen_sum_x0 : ampsel * Z := (Amp%s, (%d)).' % (sa['x0'][0].upper(), sa['x0'][1]))
+        fr = self.fr
+        o.append('(* expr.py Expr.magnitude (line %d): sqrt(<this>) / D for self = (Nr + j Ni) / D after rationalize_denominator *)' % fr['lines'][0])
+        o.append('Definition gen_mag_num_sq {K : fld} (Nr Ni : K) : K := %s.' % fr['magsq'])
+        o.append('(* expr.py Expr.phase (line %d): atan2(N.imag, N.real); a real number has phase 0 (>= 0) or pi (quarter turns) *)' % fr['lines'][1])
+        o.append('Inductive cpart := PRe | PIm.')
+        o.append('Definition gen_phase_atan2_args : cpart * cpart := (PIm, PRe).')
+        o.append('Definition gen_phase_real_nonneg : Z := 0. Definition gen_phase_real_neg : Z := 2.')
+        o.append('(* expr.py Expr.dB (line %d): k * log10(magnitude) *)' % fr['lines'][2])
+        o.append('Definition gen_dB_factor : Z := %d. Definition gen_dB_power_factor : Z := %d.' % (fr['dB']['field'], fr['dB']['power']))
         for nm, d in (('vac', self.vac), ('iac', self.iac)):
             o.append('(* oneport.py %s.__init__, line %d: phasor(arg%d * exp(j * arg%d), omega=arg%d); time form arg%d * cos(arg%d * t + arg%d) *)' % (
                 nm.capitalize(), d['line'], d['amp'], d['phase'], d['omega'], d['amp'], d['omega'], d['phase']))
@@ -684,7 +760,7 @@ class Translator:
     def summary(self):
         return {'leaves': {k: {'slot': v['slot'], 'expr': v['coq'], 'params': v['params']} for k, v in self.leaves.items()},
                 'aliases': self.aliases, 'select_nonstr': self.nonstr, 'select': self.table,
-                'vac': self.vac, 'iac': self.iac, 'offs': self.offs, 'sum_ac': self.sumac}
+                'vac': self.vac, 'iac': self.iac, 'offs': self.offs, 'sum_ac': self.sumac, 'fresp': self.fr}
 
 
 if __name__ == '__main__':
